@@ -53,6 +53,10 @@ MUTANTS = [
     ("vt.contracts.einsum_eq", "get_einsum_eq", "cotengra/core.py", "            for i, ix in enumerate(unique(itertools.chain(l_inds, r_inds)))\n        }", "            for i, ix in enumerate(unique(itertools.chain(l_inds, r_inds)))\n            if not ix.isascii()\n        }"),
     ("vt.contracts.einsum_eq", "get_einsum_eq", "cotengra/core.py", "enumerate(unique(itertools.chain(l_inds, r_inds)))", "enumerate(unique(l_inds))"),
     ("vt.contracts.einsum_eq", "get_einsum_eq", "cotengra/core.py", "ord(ix): get_symbol(i)", "ord(ix): get_symbol(i % 52)"),
+    ("vt.contracts.slicer_costs,vt.contracts.utils_maxcounter", "remove", "cotengra/slicer.py", "            cost._flops += new_flops - old_flops", "            cost._flops += new_flops"),
+    ("vt.contracts.slicer_costs,vt.contracts.utils_maxcounter", "remove", "cotengra/slicer.py", "                cost._sizes.add(new_size)\n", "                cost._sizes.add(old_size)\n"),
+    ("vt.contracts.slicer_costs,vt.contracts.utils_maxcounter", "__init__", "cotengra/slicer.py", "self._flops += c[IDX_FLOPS]", "self._flops += c[IDX_SIZE]"),
+    ("vt.contracts.slicer_costs,vt.contracts.utils_maxcounter", "__init__", "cotengra/slicer.py", "self._where[ix].add(i)", "self._where[ix].add(i + 1)"),
     ("vt.contracts.hyper_score", "_search", "cotengra/hyperoptimizers/hyper.py", 'if trial["score"] < self.best["score"]:', 'if trial["score"] > self.best["score"]:'),
     ("vt.contracts.hyper_score", "_get_and_report", "cotengra/hyperoptimizers/hyper.py", "                    del self._futures[i]\n", "                    del self._futures[0]\n"),
     ("vt.contracts.hyper_score", "_get_and_report", "cotengra/hyperoptimizers/hyper.py", "                    self._maybe_report_result(setting, trial)\n                    return trial", "                    return trial"),
